@@ -105,7 +105,7 @@ def histories(draw):
     )
     opts = draw(
         st.lists(
-            st.sampled_from(PRESETS + ["optimal", "optimal-outer", "p1_tuple", "p1_list", "p2_tuple", "p2_list", "e_tuple", "e_list"]),
+            st.sampled_from(PRESETS + ["optimal", "optimal-outer", "p1_tuple", "p1_list", "p1_nested", "p2_tuple", "p2_list", "p2_nested", "e_tuple", "e_list"]),
             min_size=1, max_size=3,
         )
     )
@@ -291,7 +291,11 @@ def run_case(spec, sub=None):
         edge = None
         if o.startswith("p"):
             explicit = paths[o[:2]]
-            optimize = list(map(tuple, explicit)) if o.endswith("list") else explicit
+            if o.endswith("nested"):
+                # a list of lists (e.g. a path that went through JSON)
+                optimize = [list(st_) for st_ in explicit]
+            else:
+                optimize = list(map(tuple, explicit)) if o.endswith("list") else explicit
         elif o.startswith("e_") and labmode.startswith("int"):
             # a sequence of integers is read as a linear path: no edge paths
             optimize = "greedy"
@@ -484,6 +488,20 @@ def run_case(spec, sub=None):
                     viol.append(f"{what}: explicit path {list(explicit)} was given but {p} came back")
         if viol:
             break
+        if fn == "path" and spec.get("scribble", True):
+            # the caller owns what it was handed: scribbling over a returned
+            # path (where it is mutable) must not reach the cache
+            pth = res["path"]
+            res["path"] = [tuple(s_) for s_ in pth]  # keep what was returned for the comparisons below
+            try:
+                if isinstance(pth, list):
+                    for st_ in pth:
+                        if isinstance(st_, list) and st_:
+                            st_[0] = 99
+                    pth.append("junk")
+                    cls.append("returned_path_mutated")
+            except Exception:
+                pass
         # the same call with caching disabled must agree
         if fn != "tree":
             ok, res2 = guarded(do, False)
